@@ -847,7 +847,7 @@ func main() {
 		Assumptions: []string{
 			"reference model refctx written from the C07 statement and quotas.md with unbounded integers and explicit infinity (no golua import)",
 			"part A leaves Millis at 0 everywhere: the clock (time.Now in now()) is not controllable without an overlay, so time budgets are not explored",
-			"ReleaseMem is only issued for amounts the same context has required and not yet released (alphabet restriction), so a 'Too much mem released' panic would be a violation",
+			"ReleaseMem is issued for every amount of the alphabet, also beyond what the context has accounted: its usage is then reduced 'if possible' (quotas.md), i.e. to zero, and nothing else changes (in particular no enclosing context is credited)",
 			"the stop level is not readable through the RuntimeContext interface; the canonical state adds the model's record of the stop requests made in the history",
 			"where quotas.md is silent several outcomes are accepted: floor/ceiling in LinearRequire, refusal of resources in contexts that are not live (or below one), Due of a context created below a stopped one",
 			"part B compares no error message, no memory amount for equality, and no cpu amount other than through inequalities",
